@@ -113,6 +113,10 @@ def templates(cfg):
     T("pos.two_windows", lambda p, t: t >> p.mutate(r=rn(p, t), d=p.dense_rank(arrange=[t.g.nulls_first()]), c=t.b.cum_sum(arrange=[t.a.nulls_last(), t.b.nulls_last()], partition_by=t.g)))
     T("pos.window_in_expr", lambda p, t: t >> p.mutate(y=t.b - t.b.min(partition_by=t.g) + rn(p, t)))
     T("pos.arrange_by_window", lambda p, t: t >> p.mutate(y=t.b.sum(partition_by=t.g)) >> p.arrange(p.C.y.nulls_last(), t.a.nulls_last(), t.b.nulls_last()))
+    SB = [("t", {"a": INT, "p": BOOL, "g": INT})]
+    out.append(Template("c05.typed.shift_bool_fwd", SB, lambda p, t: t >> p.mutate(y=t.p.shift(-1, arrange=[t.a.nulls_last(), t.g.nulls_last()]), z=t.p.shift(1, arrange=[t.a.nulls_last(), t.g.nulls_last()])), props=("C05",)))
+    out.append(Template("c05.typed.shift_bool_fill", SB, lambda p, t: t >> p.mutate(y=t.p.shift(-1, False, arrange=[t.a.nulls_last(), t.g.nulls_last()], partition_by=t.g)), props=("C05",)))
+    out.append(Template("c05.typed.bool_window_aggs", SB, lambda p, t: t >> p.mutate(x=t.p.any(partition_by=t.g), y=t.p.all(), m=t.p.max(partition_by=t.g), s=t.p.sum(partition_by=t.g)), props=("C05",)))
     # grouping survives alias / select / rename / filter and still partitions the window
     T("grouping.through_alias", lambda p, t: t >> p.group_by(t.g) >> p.alias("z") >> p.mutate(y=p.C.b.sum(), r=p.row_number(arrange=[p.C.a.nulls_last(), p.C.b.nulls_last()])) >> p.ungroup())
     T("grouping.through_alias_keep", lambda p, t: t >> p.group_by(t.g) >> p.alias("z", keep_col_refs=True) >> p.mutate(y=t.b.sum()) >> p.ungroup())
